@@ -299,6 +299,44 @@ theorem eor_last (o : Opts) (f : Nat) (xs : List Item) :
       · cases h
       · obtain ⟨_, _, h⟩ := List.mem_map.mp h; cases h
 
+/-- **dedup_key_matches_wire**: the last-action key (`wireKey` of CreateUpdateMsgFromPaths, which is
+    also the receiver's key) contains the local path identifier iff the SEND bit of the family's
+    negotiated ADD-PATH mode is set — exactly when the identifier is written on the wire (4 more
+    octets per NLRI entry). In particular with mode receive-only (1) two changes of one prefix with
+    different local ids have the same key, so only the later one is emitted. -/
+theorem dedup_key_matches_wire (o : Opts) (c d : Change) :
+    (wkey o c = wkey o d ↔
+      c.fam = d.fam ∧ c.n.bits = d.n.bits ∧ c.n.pfx = d.n.pfx ∧ (apSend o c.fam = true → c.n.id = d.n.id)) ∧
+    entryLen o c.fam c.n = nlriLen c.fam c.n + (if apSend o c.fam = true then 4 else 0) := by
+  refine ⟨?_, by unfold entryLen ap; rfl⟩
+  unfold wkey ap
+  constructor
+  · intro h
+    simp only [Prod.mk.injEq] at h
+    obtain ⟨h1, h2, h3, h4⟩ := h
+    refine ⟨h1, h2, h3, fun hs => ?_⟩
+    rw [← h1] at h4
+    simpa [hs] using h4
+  · rintro ⟨h1, h2, h3, h4⟩
+    simp only [Prod.mk.injEq]
+    refine ⟨h1, h2, h3, ?_⟩
+    rw [← h1]
+    cases hs : apSend o c.fam with
+    | true => simpa using h4 hs
+    | false => simp
+
+/-- the SEND bit for each of the four negotiated modes -/
+example : (List.range 4).map (fun m => apSend ⟨false, [(0, m)]⟩ 0) = [false, false, true, true] := by decide
+
+/-- one prefix, local ids 1 then 2, in one batch: with modes none / receive-only only the later
+    change is emitted, with send / both each id is its own route -/
+def exTwoIds : List Item :=
+  [ .path ⟨⟨0, ⟨24, 1, 1⟩, some ⟨⟨1, 30⟩, none⟩⟩, 5, 0⟩,
+    .path ⟨⟨0, ⟨24, 1, 2⟩, none⟩, 0, 0⟩ ]
+
+example : (List.range 4).map (fun m => (pack ⟨false, [(0, m)]⟩ exTwoIds).length) = [1, 1, 2, 2] := by decide
+example : pack ⟨false, [(0, 1)]⟩ exTwoIds = [Msg.wd4 [⟨24, 1, 2⟩]] := by decide
+
 /-! ### non-vacuity: concrete inputs that satisfy the hypotheses and exercise the branches -/
 
 /-- an announcement with a 4075-octet attribute set (does not fit a 4096-octet session), an
